@@ -45,8 +45,23 @@ LEVEL = 'proof'
 TECHNIQUE = ('Lean 4 proof: inductive invariants over the step relation of line-granular interleaving models '
              '(all schedules, all call sequences, any number of threads); models tied to the real threads by '
              'deterministic schedule replay with per-step snapshot comparison')
-LEVEL_TEXT = 'see docs/C20.md'
-LEVEL_NOTE = 'see docs/C20.md'
+LEVEL_TEXT = ('proof (partial). Proved in Lean, for EVERY schedule, every controller call sequence and any number of '
+              'threads, over line-granular interleaving models of the repaired code: at most one armed worker per '
+              'monitor; once stop() has returned the cancelled worker invokes the callback at most once more and then '
+              'never again; start/graceful leave exactly one armed live worker and stop none; stop() joins a non-daemon '
+              'worker; EXITING is stable, block() returns within 5 own steps of the main thread once the bus is EXITING, '
+              'never earlier, and execv happens iff restart() was called; start_thread/stop_thread obey a conservation '
+              'law that gives exactly one stop_thread per start_thread at quiescence and stop() never raises. The '
+              'pre-fix protocols (worker arms itself; stop() iterates the live dict) are proved FALSE by witness '
+              'schedules and true under explicit side conditions. Partial: the theorems are about the models; the real '
+              'code is tied to them by replaying generated schedules on real threads (snapshots compared after every '
+              'step) - bytecode atomicity, real-time sleeping, join of foreign threads in block(), execv and raising '
+              'callbacks are outside the models.')
+LEVEL_NOTE = ('Trusted: Lean kernel (propext, Classical.choice, Quot.sound only); the hand models CpModel/Monitor.lean, '
+              'BlockWait.lean, ThreadMgr.lean as validated on this run by per-step comparison with real threads under '
+              'harness/c20_sched.py; CPython switching threads only between bytecodes with atomic attribute/dict '
+              'operations; line granularity = at most one shared access per traced line; controller calls on one '
+              'monitor do not overlap; callbacks and listeners do not raise.')
 TRUSTED_BASE = [
     'CPython: threads are switched only between bytecodes; attribute load/store and single dict operations '
     '(in, len, d[k]=v, pop, clear, list(d), one next() of an iterator) are atomic',
@@ -66,7 +81,7 @@ RULE = ('scenario (M: controller call sequence x frequency x daemon; B: second-t
         'model-derived witness schedules, random); non-trivial = at least two threads took a step; distinct = '
         'distinct (scenario, schedule) line')
 
-PROCS = min(8, os.cpu_count() or 2)
+PROCS = min(int(os.environ.get('C20_PROCS', '8')), os.cpu_count() or 2)
 
 
 class _Clock:
@@ -236,9 +251,10 @@ def oracle_M(case, run):
 
 
 def tail_M(nworkers=4):
+    # up to 4 calls, each of which may have to wait (join) for a non-daemon worker to run off
     t = []
-    for _ in range(3):
-        t += ['c'] * 40
+    for _ in range(5):
+        t += ['c'] * 34
         for w in range(1, nworkers + 1):
             t += ['w%d' % w] * 16
     return t
@@ -514,7 +530,8 @@ def modes():
         while not r.s.recs['c'].done and n < 60:
             r.step('c')
             n += 1
-        _modes['M'] = 'fixed' if (r.mon.thread is not None and r.mon.thread.running) else 'asIs'
+        _modes['M'] = 'asIs' if (r.mon.thread is not None and not r.mon.thread.running
+                                 and 'w1' in r.s.recs) else 'fixed'
     finally:
         r.close()
     # T: is the entry already removed when stop() publishes stop_thread?
@@ -523,9 +540,12 @@ def modes():
     tm = plugins.ThreadManager(bus)
     seen = []
     bus.subscribe('stop_thread', lambda i: seen.append(len(tm.threads)))
-    tm.acquire_thread()
-    tm.stop()
-    _modes['T'] = 'fixed' if seen == [0] else 'asIs'
+    try:
+        tm.acquire_thread()
+        tm.stop()
+    except Exception:           # a broken stop() is the oracle's business, not the detector's
+        seen = [0]
+    _modes['T'] = 'asIs' if seen == [1] else 'fixed'
     return _modes
 
 
@@ -742,7 +762,7 @@ def all_cases(ctx):
     # M: the controller's calls issued at every point of the worker's life (incl. before its first
     # instruction) and the worker let loose at every line of the controller
     pa = range(0, 46) if quick else range(0, 60)
-    pb = (0, 1, 2, 3, 5, 6, 8, 13) if quick else range(0, 15)
+    pb = (0, 1, 2, 3, 4, 5, 6, 7, 8, 13) if quick else range(0, 15)
     main_seq = ['start', 'stop', 'graceful', 'start']
     cases += list(gen_M_systematic(main_seq, 1, 1, pa, pb))
     cases += list(gen_M_systematic(main_seq, 1, 0, pa, (0, 2, 6) if quick else pb))
@@ -769,7 +789,7 @@ def run(ctx):
     ctx.extra['protocol_detected'] = dict(modes())
     ctx.note('live tree implements: BackgroundTask %(M)s, ThreadManager.stop %(T)s' % modes())
     check_cases(ctx, all_cases(ctx))
-    n = ctx.budget(150, 4000)
+    n = ctx.budget(450, 5000)
     for kind in ('M', 'B', 'T'):
         check_cases(ctx, gen_random(ctx, kind, n))
     if not ctx.quick():
